@@ -461,7 +461,7 @@ def replay(path):
 
 def main(tier, seed):
     t0 = time.time()
-    opts = {'examples': common.budget(tier, 150, 5000),
+    opts = {'examples': common.budget(tier, 500, 5000),
             'time_budget': common.budget(tier, 80, 1500),
             'shrink_budget': common.budget(tier, 120, 500)}
     results = runner.run_shards('mv.props.c13', 'shard_main', 16, seed, tier,
